@@ -318,6 +318,7 @@ int main(int argc, char **argv) {
             else if(!strcmp(t[3], "w")) fl = O_WRONLY | O_CREAT | O_TRUNC;
             else if(!strcmp(t[3], "rwc")) fl = O_RDWR | O_CREAT;
             else if(!strcmp(t[3], "wo")) fl = O_WRONLY;
+            else if(!strcmp(t[3], "wa")) fl = O_WRONLY | O_APPEND;
             int fd = open(t[2], fl, 0644);
             if(fd < 0) die("fopen failed", t[2]);
             fds[s] = fd;
